@@ -66,6 +66,7 @@ func main() {
 		}
 		os.Exit(1)
 	}
+	computeGuardedBy(P)
 	if *dump != "" {
 		for _, fn := range P.ModuleFuncs() {
 			if strings.Contains(fnKey(fn), *dump) {
